@@ -266,9 +266,28 @@ func genC08(t *rapid.T) C08Case {
 	applyRuntimeExclusionsFor(&cfg, "C08")
 	p := model.GenPackage(t, &cfg)
 	c := C08Case{Kind: "model", Pkg: p}
-	if rapid.Bool().Draw(t, "shuffleDefs") {
+	lateUser, lateArg, late := 0, 0, false
+	if rapid.IntRange(0, 3).Draw(t, "lateUse") == 0 {
+		// a local type used only as a type argument of an imported generic type
+		lateUser, lateArg, late = model.AddLateUse(p, func(l string, n int) int { return rapid.IntRange(0, n-1).Draw(t, l) })
+	}
+	if late || rapid.Bool().Draw(t, "shuffleDefs") {
 		// definitions may be written in any order: a type may be used before it is defined
 		c.Order = rapid.Permutation(seq(len(p.Defs))).Draw(t, "defOrder")
+		if late {
+			iu, ia := -1, -1
+			for i, d := range c.Order {
+				if d == lateUser {
+					iu = i
+				}
+				if d == lateArg {
+					ia = i
+				}
+			}
+			if iu > ia {
+				c.Order[iu], c.Order[ia] = c.Order[ia], c.Order[iu]
+			}
+		}
 	}
 	if rapid.IntRange(0, 3).Draw(t, "hostile") != 0 {
 		hostilize(t, p, &c)
